@@ -668,10 +668,12 @@ def observe(pep, ret, held, exact=False, with_native=True, extra_evals=True, use
     out["dual_mineig"] = lmi_mineig                   # sensor (numpy): smallest eigenvalue of each LMI multiplier
     if solved and pep.residual is not None:
         S = np.asarray(pep.residual, dtype=float)
-        out["resid"] = [fx(S[i, j] + (S[j, i] if i != j else 0))
-                        for (i, j) in proj.pairs(NP)]
-        out["resid_mineig"] = fx(np.linalg.eigvalsh((S + S.T) / 2).min())
-        out["resid_shape"] = list(S.shape)
+        out["resid_shape"] = list(S.shape) if S.ndim == 2 else [-1, -1]
+        if S.ndim == 2 and S.shape == (NP, NP):
+            out["resid"] = [fx(S[i, j] + (S[j, i] if i != j else 0)) for (i, j) in proj.pairs(NP)]
+            out["resid_mineig"] = fx(np.linalg.eigvalsh((S + S.T) / 2).min())
+        else:            # a residual of another size is not the one of this solve: reported through resid_shape (c01g)
+            out["resid"], out["resid_mineig"] = [], 0
     else:
         out["resid"], out["resid_mineig"], out["resid_shape"] = [], 0, [0, 0]
     # primal side
